@@ -56,14 +56,22 @@ func (l *DNSNameHyphenInSLD) Execute(c *x509.Certificate) *lint.LintResult {
 		}
 	}
 	parsedSANDNSNames := c.GetParsedDNSNames(false)
-	for i := range c.GetParsedDNSNames(false) {
+	// A name that cannot be parsed leaves the lint undecided, but it must not
+	// hide (or be hidden by) a finding about another name depending on the
+	// order of the SAN entries: keep looking and report NA only at the end.
+	unparseable := false
+	for i := range parsedSANDNSNames {
 		if parsedSANDNSNames[i].ParseError != nil {
-			return &lint.LintResult{Status: lint.NA}
+			unparseable = true
+			continue
 		}
 		if strings.HasPrefix(parsedSANDNSNames[i].ParsedDomain.SLD, "-") ||
 			strings.HasSuffix(parsedSANDNSNames[i].ParsedDomain.SLD, "-") {
 			return &lint.LintResult{Status: lint.Error}
 		}
+	}
+	if unparseable {
+		return &lint.LintResult{Status: lint.NA}
 	}
 	return &lint.LintResult{Status: lint.Pass}
 }
